@@ -16,7 +16,7 @@ var Profiles = map[string]Profile{
 	// spec lab, models: C07
 	"models": {Name: "models", MaxControllers: 2, MaxMethods: 5, MultiPkg: true, MultiFile: false, ParamIn: []string{"path", "query", "body"},
 		ParamTypeLevel: 2, Models: 2, FieldValidators: true, CustomErrors: true, RouteStyle: "clean", Maps: true, HiddenJSON: true,
-		Descriptions: true, AnyBytesTime: true, NestedSlices: true, UsageValidators: true},
+		Descriptions: true, AnyBytesTime: true, NestedSlices: true, UsageValidators: true, SameNameTypes: true},
 	// spec lab, security: C04
 	"security": {Name: "security", MaxControllers: 3, MaxMethods: 5, MultiPkg: true, MultiFile: true, Hidden: true, Security: true,
 		DefaultSecP: 0.5, EnforceP: 0.4, ParamIn: []string{"path", "query"}, ParamTypeLevel: 0, Models: 0, RouteStyle: "clean", OAuthSchemes: true},
